@@ -37,6 +37,7 @@ ENTRY = {
         "AGV.C06.replaceAll_eq_outermost",
         "AGV.C06.replaceAll_ordered_disjoint",
         "AGV.C06.replaceAll_valid",
+        "AGV.C06.replaceAll_preserves_outside",
         "AGV.C06.replaceAll_edits_of_matches",
         "AGV.C06.replaceAll_rewrites_every_outermost",
         "AGV.C06.patternLen_inside",
